@@ -591,3 +591,10 @@ package hashgraph
 //@   ensures[subset] forall k string :: __in(k, sp.items) ==> old(__in(k, sp.items)) && __eq(sp.items[k], old(sp.items[k]))
 //@   loop 1 modifies sp.items[*]
 //@   loop 1 invariant[subset] forall k string :: __in(k, sp.items) ==> old(__in(k, sp.items)) && __eq(sp.items[k], old(sp.items[k]))
+
+//@ iface func (s Store) KnownEvents() map[uint32]int
+//@   modifies nothing
+//@   ensures[fresh] ret0 != nil && __fresh(ret0)
+
+//@ iface func (s Store) ParticipantEvents(participant string, skip int) ([]string, error)
+//@   modifies nothing
